@@ -33,9 +33,10 @@
 (* NOT decided (DESIGN.md section 5): that the forward model J, C, h of x agrees   *)
 (* with Li et al.'s equations - its exponents c z and 0.29^n are computed reals.  *)
 (*                                                                         *)
-(* Logged numbers are compared exactly as dyadics (Dy); only the UCS relations  *)
-(* (ln, exp, sin, cos) use 104-bit fixed point.  A relation returns BITS of      *)
-(* agreement; the verdict compares them with the named thresholds below.       *)
+(* Logged numbers are compared exactly as dyadics (Dy); only the transcendental *)
+(* UCS relations (ln, exp, sin, cos) use fixed point (65 / 39 fractional bits     *)
+(* for f64 / f32 recordings, 104 in the model checks).  A relation returns BITS   *)
+(* of agreement; the verdict compares them with the named thresholds below.      *)
 (***************************************************************************)
 EXTENDS ColourMath, LnExp
 
@@ -164,18 +165,29 @@ UcsMFwd(M) == FxDiv(FxLn(FxAdd(FxOne, FxMul(C0228, M))), C0228)
 UcsMInv(Mp) == FxDiv(FxSub(FxExp(FxMul(C0228, Mp)), FxOne), C0228)
 
 -----------------------------------------------------------------------------
-(* Thresholds (bits of agreement required).  Principled bounds: a round trip chains about 40 roundings and three
-   power functions with exponents up to 2.4, i.e. some 2^6 u; the attribute links a dozen roundings; the UCS
-   transformations 4 roundings around a logarithm.  Calibration on the pinned tree over the whole parameter
-   lattice and random conditions (thorough tier), worst case observed in bits -> threshold:
-   CALIBRATION-TABLE
-   (the largest deviations of every run are recorded in the evidence file) *)
+(* Thresholds (bits of agreement required; one bit = a factor 2 of deviation).  Principled bounds: a round trip chains
+   about 40 roundings and three power functions with exponents up to 2.4, i.e. some 2^6 u of the XYZ magnitude; the
+   attribute links a dozen roundings; the UCS transformations 4 roundings around a logarithm.  Calibration on the pinned
+   tree, thorough tier (all 4320 lattice conditions x 6 partial kinds x 3 colours, 30000 random conditions incl. custom
+   whites and clamped surround / discounting, dark colours down to 1e-9, 4x white; 318480 events), worst case observed:
+                                         f64  bits (deviation)  -> threshold     f32  bits (deviation) -> threshold
+     XYZ round trip, responses >= 0        47  (7.1e-15)           42            18  (3.8e-6)            13
+     XYZ round trip, one negative response 45  (2.8e-14)           42            16  (1.5e-5)            13     (8x)
+     from_xyz vs projection                bit-identical           45            bit-identical           16
+     into_full(partial) vs full            49  (1.8e-15)           45            20  (9.5e-7)            16
+     s^2 Q = 10^4 M, two-colour ratios     49  (1.8e-15)           45            20  (9.5e-7)            16
+     adopted white J = 100                 bit-identical           45            bit-identical           16
+     UCS relations (J', M', polar, inverses) 49 (1.8e-15)          46            20  (9.5e-7)            17     (8x)
+     UCS round trips                       48  (3.6e-15)           44            19  (1.9e-6)            15
+   No corner of the lattice (percent-0 / dark surround, adapting luminance 0.1, background 0.01, discounting 0) is worse
+   conditioned than the rest: relative to the XYZ magnitude the round trip is uniformly good down to 1e-9.  The margins of
+   every run are recorded in the evidence file (coverage.margins). *)
 F32(t) == t = "f32"
 RtThr(t) == IF F32(t) THEN 13 ELSE 42
 AttrThr(t) == IF F32(t) THEN 16 ELSE 45
 LinkThr(t) == IF F32(t) THEN 16 ELSE 45
 UcsThr(t) == IF F32(t) THEN 17 ELSE 46
-UcsRtThr(t) == IF F32(t) THEN 10 ELSE 38
+UcsRtThr(t) == IF F32(t) THEN 15 ELSE 44
 
 -----------------------------------------------------------------------------
 (* Verdicts over events.  A `conv` event: params, t, pk (partial kind), w (1: x is the adopted white of params),
